@@ -157,7 +157,11 @@ macro_rules! distance_func_template {
                         )
                     ))] {
                         // Detect runtime CPU features, cache and call
+                        #[cfg(fast_tlsh_verif)]
+                        crate::verif::dispatch_event(stringify!($name), crate::verif::DISPATCH_EVENT_CALL);
                         $dispatch.get_or_init(|| {
+                            #[cfg(fast_tlsh_verif)]
+                            crate::verif::dispatch_event(stringify!($name), crate::verif::DISPATCH_EVENT_INIT);
                             #[cfg(all(target_arch = "arm"))]
                             {
                                 if is_arm_feature_detected!("neon") {
@@ -330,3 +334,142 @@ pub(crate) mod naive {
 }
 
 mod tests;
+
+/// Verification hooks (only with `--cfg fast_tlsh_verif`): direct access to
+/// every compiled body distance back end.  See [`crate::verif`].
+#[cfg(fast_tlsh_verif)]
+pub mod verif_hooks {
+    /// The distance function on 12-byte bodies.
+    pub type Distance12 = fn(&[u8; 12], &[u8; 12]) -> u32;
+    /// The distance function on 32-byte bodies.
+    pub type Distance32 = fn(&[u8; 32], &[u8; 32]) -> u32;
+    /// The distance function on 64-byte bodies.
+    pub type Distance64 = fn(&[u8; 64], &[u8; 64]) -> u32;
+
+    /// Generates safe wrappers of an x86 back end.
+    #[allow(unused_macros)]
+    macro_rules! x86_wrappers {
+        ($module:ident, $name32:ident, $name64:ident) => {
+            #[allow(unsafe_code)]
+            fn $name32(body1: &[u8; 32], body2: &[u8; 32]) -> u32 {
+                unsafe { super::$module::distance_32(body1, body2) }
+            }
+            #[allow(unsafe_code)]
+            fn $name64(body1: &[u8; 64], body2: &[u8; 64]) -> u32 {
+                unsafe { super::$module::distance_64(body1, body2) }
+            }
+        };
+    }
+
+    #[cfg(all(
+        feature = "simd-per-arch",
+        feature = "opt-simd-body-comparison",
+        any(target_arch = "x86", target_arch = "x86_64"),
+        any(
+            feature = "detect-features",
+            all(
+                not(target_feature = "avx2"),
+                not(target_feature = "sse4.1"),
+                target_feature = "sse2"
+            )
+        )
+    ))]
+    x86_wrappers!(x86_sse2, sse2_32, sse2_64);
+
+    #[cfg(all(
+        feature = "simd-per-arch",
+        feature = "opt-simd-body-comparison",
+        any(target_arch = "x86", target_arch = "x86_64"),
+        any(
+            feature = "detect-features",
+            all(not(target_feature = "avx2"), target_feature = "sse4.1")
+        )
+    ))]
+    x86_wrappers!(x86_sse4_1, sse4_1_32, sse4_1_64);
+
+    #[cfg(all(
+        feature = "simd-per-arch",
+        feature = "opt-simd-body-comparison",
+        any(target_arch = "x86", target_arch = "x86_64"),
+        any(feature = "detect-features", target_feature = "avx2")
+    ))]
+    x86_wrappers!(x86_avx2, avx2_32, avx2_64);
+
+    /// Whether the CPU feature is available (statically or dynamically).
+    #[allow(unused_macros)]
+    macro_rules! x86_available {
+        ($feature:tt) => {{
+            cfg_if::cfg_if! {
+                if #[cfg(feature = "detect-features")] {
+                    std::arch::is_x86_feature_detected!($feature)
+                } else {
+                    cfg!(target_feature = $feature)
+                }
+            }
+        }};
+    }
+
+    /// Enumerate all usable body distance back ends
+    /// (the name, optional 12-byte one, 32-byte one and 64-byte one).
+    ///
+    /// `"dispatch"` is what the crate itself uses.
+    pub fn for_each_backend(
+        f: &mut dyn FnMut(&'static str, Option<Distance12>, Distance32, Distance64),
+    ) {
+        f(
+            "dispatch",
+            Some(super::distance_12),
+            super::distance_32,
+            super::distance_64,
+        );
+        f(
+            "pseudo_simd_32",
+            Some(super::pseudo_simd_32::distance_12),
+            super::pseudo_simd_32::distance_32,
+            super::pseudo_simd_32::distance_64,
+        );
+        f(
+            "pseudo_simd_64",
+            Some(super::pseudo_simd_64::distance_12),
+            super::pseudo_simd_64::distance_32,
+            super::pseudo_simd_64::distance_64,
+        );
+        #[cfg(all(
+            feature = "simd-per-arch",
+            feature = "opt-simd-body-comparison",
+            any(target_arch = "x86", target_arch = "x86_64"),
+            any(
+                feature = "detect-features",
+                all(
+                    not(target_feature = "avx2"),
+                    not(target_feature = "sse4.1"),
+                    target_feature = "sse2"
+                )
+            )
+        ))]
+        if x86_available!("sse2") {
+            f("x86_sse2", None, sse2_32, sse2_64);
+        }
+        #[cfg(all(
+            feature = "simd-per-arch",
+            feature = "opt-simd-body-comparison",
+            any(target_arch = "x86", target_arch = "x86_64"),
+            any(
+                feature = "detect-features",
+                all(not(target_feature = "avx2"), target_feature = "sse4.1")
+            )
+        ))]
+        if x86_available!("sse4.1") {
+            f("x86_sse4_1", None, sse4_1_32, sse4_1_64);
+        }
+        #[cfg(all(
+            feature = "simd-per-arch",
+            feature = "opt-simd-body-comparison",
+            any(target_arch = "x86", target_arch = "x86_64"),
+            any(feature = "detect-features", target_feature = "avx2")
+        ))]
+        if x86_available!("avx2") {
+            f("x86_avx2", None, avx2_32, avx2_64);
+        }
+    }
+}
